@@ -419,6 +419,34 @@ def canon_events(evs):
     return [canon_event(e) for e in evs]
 
 
+def conv_tail(tail):
+    """Conversion of the messages after the cached prefix to canonical events: harness twin of the Lean model
+    `Isolation.convTailC` (new-turn index, loop, deferred new-turn event), on (role, text) pairs. The new turn is the
+    last user message that is only followed by messages that are neither user nor assistant messages; its
+    UtteranceUserActionFinished comes last and it gets no UserMessage."""
+    nt = None
+    for i in range(len(tail) - 1, -1, -1):
+        if tail[i][0] == "assistant":
+            break
+        if tail[i][0] == "user":
+            nt = i
+            break
+    out = []
+    for i, (role, text) in enumerate(tail):
+        if role == "user":
+            if i != nt:
+                out += [["UF", text], ["UM", text]]
+        elif role == "assistant":
+            out += [["SB", text], ["BF", text]]
+        elif role == "context":
+            out.append(["CU", text])
+        elif role == "event":
+            out.append(["RAW", text])
+    if nt is not None:
+        out.append(["UF", tail[nt][1]])
+    return out
+
+
 # ----------------------------------------------------------------------------- generators
 
 TEXTS = ["a", "b", "c", "a:b", "b:c", "a:b:c", ":", "", "a:", ":b", "hi", "é:ü", "x y", "r0", '"a"', "{}", '{"k": 1}']
@@ -1171,7 +1199,8 @@ def model_requests(case, obs):
             return []
         # dict semantics: a later entry under the same key replaces the earlier one -> newest first for the model
         cache = [[kk, ent["ev"]] for kk, ent in zip(obs["keys"], case["cache"])][::-1]
-        return [{"m": "C15.events", "which": obs["which"], "msgs": obs["pairs"], "cache": cache}]
+        return [{"m": "C15.events", "which": obs["which"], "msgs": obs["pairs"], "cache": cache},
+                {"m": "C15.convert", "tails": [obs["pairs"][p:] for p in range(len(obs["pairs"]))]}]
     if k == "serve":
         if any("exc" in st for steps in obs["iso"] + [obs["shared"]] for st in steps):
             return []
@@ -1233,7 +1262,14 @@ def compare(case, obs, mouts):
         return None
     if k == "events":
         m = mouts[0]
-        return None if m["events"] == obs["events"] else f"_get_events_for_messages: impl {obs['events']} model {m['events']}"
+        if m["events"] != obs["events"]:
+            return f"_get_events_for_messages: impl {obs['events']} model {m['events']}"
+        # the conversion the oracle uses is the model's: twin vs `convTailC` on every tail of the request
+        for p, mt in enumerate(mouts[1]["tails"]):
+            tw = conv_tail(obs["pairs"][p:])
+            if mt != tw:
+                return f"conversion of {obs['pairs'][p:]}: oracle twin {tw} model convTailC {mt}"
+        return None
     if k == "serve":
         d = _steps_diff(mouts[0]["steps"], obs["shared"], "shared run")
         if d:
@@ -1320,18 +1356,9 @@ def oracle(case, obs):
             if ent:
                 exp_ev, p0 = list(ent[-1]["ev"]), p
                 break
-        for i in range(p0, len(msgs)):
-            role, text = msgs[i]
-            if role == "user":
-                exp_ev.append(["UF", text])
-                if i != len(msgs) - 1:
-                    exp_ev.append(["UM", text])
-            elif role == "assistant":
-                exp_ev += [["SB", text], ["BF", text]]
-            elif role == "context":
-                exp_ev.append(["CU", text])
-            elif role == "event":
-                exp_ev.append(["RAW", text])
+        # ... followed by the conversion of the remaining messages (conv_tail = twin of the Lean model `convTailC`
+        # of the current source; compare() checks the twin against the model on every case)
+        exp_ev += conv_tail(msgs[p0:])
         if obs["events"] != exp_ev:
             return f"events for the request should continue from its own longest stored prefix: expected {exp_ev}, got {obs['events']}"
         return None
